@@ -506,6 +506,17 @@ func (k msgServer) UpdateConsumer(goCtx context.Context, msg *types.MsgUpdateCon
 		if k.IsConsumerPrelaunched(ctx, consumerId) {
 			chainId = msg.NewChainId
 			k.SetConsumerChainId(ctx, consumerId, chainId)
+
+			// the stored initial height has to keep matching the revision of the new chain id; if this message
+			// also provides new initialization parameters, those are validated against the new chain id below
+			if msg.InitializationParameters == nil {
+				if initParams, err := k.Keeper.GetConsumerInitializationParameters(ctx, consumerId); err == nil {
+					if err := types.ValidateInitialHeight(initParams.InitialHeight, chainId); err != nil {
+						return &resp, errorsmod.Wrapf(types.ErrInvalidMsgUpdateConsumer,
+							"new chain id requires updating the initial height as well: %s", err.Error())
+					}
+				}
+			}
 		} else {
 			// the chain id cannot be updated if the chain is NOT in a prelaunched (i.e., registered or initialized) phase
 			return &resp, errorsmod.Wrapf(types.ErrInvalidPhase, "cannot update chain id of a non-prelaunched chain: %s", k.GetConsumerPhase(ctx, consumerId))
